@@ -8,8 +8,8 @@ use grep_matcher::Matcher;
 use grep_regex::RegexMatcherBuilder;
 use grep_searcher::{Searcher, SearcherBuilder, Sink, SinkContext, SinkContextKind, SinkFinish, SinkMatch};
 
-const PATTERNS: &[&str] = &["a\nb", "a\n", "\na", "^a", "a$", "a|\n\n", "(?s:a.b)", r"\bb", "b*", "^", "$", "a\n|^", r"\Ab|b\n\z", "a\nb|b\na", r"\n+"];
-const ALPHA: &[u8] = b"ab\n";
+const PATTERNS: &[&str] = &["a\nb", "a\n", "\na", "^a", "a$", "a|\n\n", "(?s:a.b)", r"\bb", "b*", "^", "$", "a\n|^", r"\Ab|b\n\z", "a\nb|b\na", r"\n+", "^|a\nb", r"\b|a\nb", "$|b\na", r"\b|a\n-", r"-\n\b"];
+const ALPHA: &[u8] = b"ab\n-";
 
 #[derive(Clone, PartialEq, Eq, Debug)]
 struct Ev { kind: u8, off: u64, len: usize, ln: u64 } // 1 match, 2 before, 3 after, 4 other, 5 break, 6 finish
